@@ -96,6 +96,11 @@ def prepLine (line : String) : String :=
         | _ => w
       s!"prj {hexOf w'}"
     | _, _ => "skip bad-prjcrs-line"
+  | "prjncrs" :: name :: call :: rest =>
+    -- a layer of that NAME whose .prj is the WKT of a generated description, among decoy .prj files holding another one
+    match parseCrs (rest.take 16), parseCrs ((rest.drop 17).take 16) with
+    | some (c, st), some (c', st') => s!"prjn {name} {call} {hexOf (toWkt c st)} {hexOf (toWkt c' st')}"
+    | _, _ => "skip bad-prjncrs-line"
   | "sph" :: rest =>
     -- a SPHERE in both notations: PROJ.4 `+a=R +b=R`, WKT `SPHEROID[..,R,0]`
     match parseCrs (rest.take 16) with
@@ -634,6 +639,20 @@ partial def judgeLine (line : String) : String :=
         | some df => s!"DIFF prj {df}"
         | none => s!"OK prj-{rs.headD "?"}"
     | _, _ => "BAD prj"
+  | ["prjn", hn, call, h, _] =>
+    -- the reference of a layer is what ITS OWN .prj says, whatever the layer is called and whatever lies next to it
+    let cls := s!"prjn-{call}-{match unhex hn with | some n => (if n.contains '/' then "dir-" else "") ++ s!"{(n.filter (· == '.')).length}dots" | none => "?"}"
+    match unhex h, rhs with
+    | some d, "S" :: r1 =>
+      let (rs, r2) := takeRes r1
+      let (rp, _) := takeRes (r2.drop 1)
+      if rs ≠ rp then s!"SPEC {cls} Decoder.SR-of-a-named-layer-differs-from-Parse-of-its-own-.prj:{firstDiff rp rs}"
+      else
+        let m : Except Err (SR Float) := parse d
+        match cmpModel "prjn" m rs with
+        | some df => s!"DIFF {cls} {df}"
+        | none => s!"OK {cls}-{rs.headD "?"}"
+    | _, _ => "BAD prjn"
   | "skip" :: _ => "OK skipped"
   | _ => "BAD line"
 
